@@ -176,6 +176,7 @@ func checkC08(w *World, r *Report) {
 	r.Rule("R08.1", "alphabets well-formed and DNS-safe", 5)
 	r.Rule("R08.2", "codec registry complete; codes distinct, constant, upper-case", 9)
 	r.Rule("R08.3", "Encode and Decode use the same encoding object", 4)
+	r.Rule("R08.8", "Encode/Decode hand out memory of their own (not a pooled, global or cached buffer the next call overwrites)", 8)
 	r.Rule("R08.4", "Base85 substitution table covers the forbidden bytes and is inverted by Decode", 1)
 	r.Rule("R08.5", "written-length results are used", 2)
 	r.Rule("R08.7", "ascii85.Decode has worst-case room or its consumed count is checked", 1)
@@ -279,6 +280,7 @@ func checkC08(w *World, r *Report) {
 
 	c08Base85(w, r)
 	c08WrittenLen(w, r)
+	c08FreshResults(w, r, codecs)
 	c08Ratios(w, r, codecs)
 	c08DecodeRoom(w, r)
 }
@@ -772,4 +774,92 @@ func replacerSubstitutions(w *World, fd *ast.FuncDecl, out map[int64]int64) []st
 		}
 	}
 	return problems
+}
+
+// c08FreshResults: R08.8 — an encoding stays what it is only if nobody else writes the memory it lives in.
+// Every []byte a codec's Encode/Decode returns must originate from an allocation of that call (make, a
+// string conversion, a library call's fresh result, append) or be the caller's own input — never memory
+// loaded from a package-level variable, a struct field or a sync.Pool.
+func c08FreshResults(w *World, r *Report, codecs []codecInfo) {
+	for _, ci := range codecs {
+		for _, mname := range []string{"Encode", "Decode"} {
+			fn := w.SSAFunc(methodOf(ci.Type, mname))
+			if fn == nil {
+				continue
+			}
+			key := "codec:" + qualName(ci.Type) + "|" + mname + "-result"
+			bad := ""
+			n := 0
+			shared := func(v ssa.Value) string {
+				seen := map[ssa.Value]bool{}
+				var walk func(v ssa.Value, d int) string
+				walk = func(v ssa.Value, d int) string {
+					if v == nil || seen[v] || d > 10 {
+						return ""
+					}
+					seen[v] = true
+					switch x := v.(type) {
+					case *ssa.Global:
+						return "the package-level variable " + x.Name()
+					case *ssa.Call:
+						if f := sCallee(x); f != nil && isMethod(f, "sync", "Pool", "Get") {
+							return "a sync.Pool (the buffer goes back to the pool and the next call overwrites it)"
+						}
+						if b, ok := x.Call.Value.(*ssa.Builtin); ok && b.Name() == "append" && len(x.Call.Args) > 0 {
+							return walk(x.Call.Args[0], d+1)
+						}
+						return ""
+					case *ssa.Slice:
+						return walk(x.X, d+1)
+					case *ssa.UnOp:
+						return walk(x.X, d+1)
+					case *ssa.FieldAddr:
+						if _, isParam := x.X.(*ssa.Parameter); isParam {
+							return "a field of the codec object (shared by every user of the codec singleton)"
+						}
+						return walk(x.X, d+1)
+					case *ssa.TypeAssert:
+						return walk(x.X, d+1)
+					case *ssa.Extract:
+						return walk(x.Tuple, d+1)
+					case *ssa.Phi:
+						for _, e := range x.Edges {
+							if s := walk(e, d+1); s != "" {
+								return s
+							}
+						}
+					case *ssa.ChangeType:
+						return walk(x.X, d+1)
+					case *ssa.MakeInterface:
+						return walk(x.X, d+1)
+					case *ssa.Alloc:
+						// a local (e.g. the spilled result slot of a function with defers): what is stored into it
+						for _, st := range storesTo(x) {
+							if s := walk(st.Val, d+1); s != "" {
+								return s
+							}
+						}
+					}
+					return ""
+				}
+				return walk(v, 0)
+			}
+			allInstrs(fn, func(in ssa.Instruction) {
+				ret, ok := in.(*ssa.Return)
+				if !ok || len(ret.Results) == 0 {
+					return
+				}
+				if _, isSlice := ret.Results[0].Type().Underlying().(*types.Slice); !isSlice {
+					return
+				}
+				n++
+				if s := shared(ret.Results[0]); s != "" {
+					bad = fmt.Sprintf("%s: the bytes returned live in %s: an encoding that is still held (a queued packet, a second goroutine's query) changes under its holder and no longer decodes to what was encoded", w.Pos(ret.Pos()), s)
+				}
+			})
+			if n > 0 {
+				r.Check(bad == "", "R08.8", key, w.Pos(fn.Pos()), fmt.Sprintf("%d return(s), each hands out memory allocated by that call (or the caller's input)", n), bad)
+			}
+		}
+	}
 }
